@@ -280,8 +280,13 @@ class QintImp(int, Qtype):
     @classmethod
     def sub(cls, tleft: TExp, tright: TExp) -> TExp:
         """Subtract two Qint"""
-        an = cls.bitwise_not(cls.fill(tleft))
-        su = cls.add(an, cls.fill(tright))
+        tleft_f = cls.fill(tleft)
+        tright_f = cls.fill(tright)
+        if len(tleft_f[1]) < len(tright_f[1]):
+            tleft_f = cast(Qtype, tright_f)[0].fill(tleft_f)
+
+        an = cls.bitwise_not(tleft_f)
+        su = cls.add(an, tright_f)
         return cls.bitwise_not(su)
 
     @classmethod
